@@ -191,6 +191,22 @@ func (e *Engine) callContract(fr *Frame, st *State, callee *ssa.Function, ct *Co
 		}
 	}
 	bindResults(post, res, callee, sig)
+	if ct.Pure && callee != nil {
+		// a pure function (see pureScan): its result is the uninterpreted function of its arguments that contract
+		// expressions use for it
+		if rsc, ok := res.(Scalar); ok {
+			var argTerms []Term
+			var sorts []Sort
+			for _, v := range args {
+				for _, t := range dynTerms(v) {
+					argTerms = append(argTerms, t)
+					sorts = append(sorts, t.Sort)
+				}
+			}
+			f := e.declareFun("pure:"+key, sorts, rsc.T.Sort)
+			e.assume(Implies(st.guard, Eq(rsc.T, app(rsc.T.Sort, f, argTerms...))))
+		}
+	}
 	for _, c := range ct.Ensures {
 		if strings.HasPrefix(c.Label, "local-") {
 			continue // proved for the callee, deliberately not exported to callers (avoids matching loops)
